@@ -38,9 +38,11 @@ def make_fn(idx, op, k, params):
     elif op == "raise": body += [f"    raise ERRS[{k} % 4]({k})"]
     elif op == "sumOpt": body += [f"    return {k} + sum(a for a in args if isinstance(a, int))"]
     elif op == "firstOf": body += ["    return args[0] if args[0] is not None else lz[0].get()"]
+    elif op == "firstOfLK": body += ["    return fallback_on_none(args[0], lz[0])"]       # the shipped component behind `use_first_of`
     elif op == "lazyIfNeg": body += ["    return lz[0].get() if (isinstance(args[0], int) and args[0] < 0) else args[0]"]
     src = f"def comp_{idx}({', '.join(anns)}) -> object:\n" + "\n".join(body) + "\n"
-    ns = {"Lazy": Lazy, "LOG": LOG, "ERRS": ERRS}
+    from lenskit.pipeline.components import fallback_on_none
+    ns = {"Lazy": Lazy, "LOG": LOG, "ERRS": ERRS, "fallback_on_none": fallback_on_none}
     exec(src, ns)
     return ns[f"comp_{idx}"]
 
@@ -55,7 +57,7 @@ def gen_case(rng):
             v = None if rng.random() < 0.3 else {"i": rng.randint(-3, 9)}
             nodes.append({"kind": "literal", "value": v})
         else:
-            op = rng.choice(["add", "add", "sumOpt", "sumOpt", "ident", "const", "constNone", "raise", "firstOf", "firstOf", "lazyIfNeg"])
+            op = rng.choice(["add", "add", "sumOpt", "sumOpt", "ident", "const", "constNone", "raise", "firstOf", "firstOfLK", "firstOfLK", "lazyIfNeg"])
             def src():
                 if rng.random() < 0.08: return None
                 if cyclic and rng.random() < 0.35: return rng.randrange(0, n)      # any node, itself and later ones included: may close a cycle
@@ -67,7 +69,7 @@ def gen_case(rng):
             elif op in ("const", "constNone", "raise"):
                 ps = [{"lzy": False, "acceptsNone": rng.random() < 0.5, "accepts": ["int"], "src": src()} for _ in range(rng.randint(0, 2))]
             else:
-                ps = [{"lzy": False, "acceptsNone": True if op == "firstOf" else rng.random() < 0.5, "accepts": ["int"], "src": src()},
+                ps = [{"lzy": False, "acceptsNone": True if op in ("firstOf", "firstOfLK") else rng.random() < 0.5, "accepts": ["int"], "src": src()},
                       {"lzy": True, "acceptsNone": rng.random() < 0.5, "accepts": ["int"], "src": (src() if cyclic else None) or rng.randrange(0, i)}]
             nodes.append({"kind": "comp", "op": op, "k": rng.randint(0, 5), "params": ps})
     inputs = []
@@ -89,6 +91,10 @@ def gen_case(rng):
             case["redefault"] = {pn: rng.choice(leaves) for pn in case["defaults"] if rng.random() < 0.7}
             case["between"] = rng.choice(["build", "config_hash", "clone"])
     return case
+
+def mnodes(case):
+    """the model's DSL has one first-available operation; `firstOfLK` is the same node computed by lenskit's own fallback component"""
+    return [dict(nd, op="firstOf") if nd.get("op") == "firstOfLK" else nd for nd in case["nodes"]]
 
 def final_defaults(case):
     d = dict(case.get("defaults") or {}); d.update(case.get("redefault") or {}); return d
@@ -156,7 +162,7 @@ def gen(rng: random.Random, tier: str):
 
 def run(case: dict, lean: Lean) -> Outcome:
     _imports()
-    margs = {"nodes": case["nodes"], "inputs": case["inputs"], "requests": case["requests"], "defaults": [[pn, tgt] for pn, tgt in final_defaults(case).items()]}
+    margs = {"nodes": mnodes(case), "inputs": case["inputs"], "requests": case["requests"], "defaults": [[pn, tgt] for pn, tgt in final_defaults(case).items()]}
     try:
         pipe = build_real(case)
     except PipelineError as e:
@@ -168,7 +174,7 @@ def run(case: dict, lean: Lean) -> Outcome:
         return Outcome(False, False, ("build raised",), {"build_error": type(e).__name__ + ": " + str(e)[:80]}, None)
     real = run_real(pipe, case)
     # default connections are resolved inside the model (`LK.Cfg.resolve`), from the builder's defaults as they stand at the last build
-    args = {"nodes": case["nodes"], "inputs": case["inputs"], "requests": case["requests"], "defaults": [[pn, tgt] for pn, tgt in final_defaults(case).items()]}
+    args = {"nodes": mnodes(case), "inputs": case["inputs"], "requests": case["requests"], "defaults": [[pn, tgt] for pn, tgt in final_defaults(case).items()]}
     as_is = lean.call("c02.run", {"variant": "asIs", **args})
     rep = lean.call("c02.run", {"variant": "repaired", **args})
     valid = rep.pop("valid"); as_is.pop("valid", None)
@@ -183,6 +189,7 @@ def run(case: dict, lean: Lean) -> Outcome:
     srcs = [p["src"] for nd in nodes if nd["kind"] == "comp" for p in nd["params"] if p["src"] is not None]
     if len(srcs) != len(set(srcs)): classes.append("shared sub-expression")
     if case["decl"] != sorted(case["decl"]): classes.append("later-declared source")
+    if any(nd["kind"] == "comp" and nd["op"] == "firstOfLK" for nd in nodes): classes.append("shipped first-available component")
     if "err" in real["result"]: classes.append("error: " + real["result"]["err"])
     if as_is != rep: classes.append("as-is ≠ repaired")
     if case.get("defaults"): classes.append("default connections")
